@@ -136,6 +136,10 @@ def run(ctx) -> None:
         floor=2,
     )
     from .c02 import check_rows as _rows
+    from .c02 import visits_every_entry as _vee
+
+    RVW = ctx.rule("C07/walks-visit-every-entry", "no loop of the reader or of the initial installation grows or shrinks the list it is iterating (instances shared with C02): pruning a vanished directory while iterating skips its next sibling, which then stays unwatched while every thread stays alive", floor=1)
+    _vee(ctx, RVW)
 
     _sink = ctx.rule("C07/_shared-not-owned", "(rows of the shared bookkeeping contract that C07 does not own)", floor=0)
     n0 = len(ctx.instances)
